@@ -168,7 +168,7 @@ def _module(draw, tier):
     groups = {}
     for g in ("grpA", "grpB")[: draw(st.integers(0, 2))]:
         groups[g] = sub()
-    return {"kind": kind, "cells": cells, "edges": edges, "channels": channels, "groups": groups}
+    return {"kind": kind, "cells": cells, "edges": edges, "channels": channels, "groups": groups, "chan_vals": draw(st.booleans())}
 
 
 def _levels(kind):
@@ -357,6 +357,13 @@ def build(spec):
     chan = {"HH": HH, "Leak": Leak}
     for name, rows in spec["channels"].items():
         m.select(nodes=[int(r) for r in rows]).insert(chan[name]())
+        if spec.get("chan_vals"):
+            # customised (non-default) parameters and states on some rows: a later mutation through another view
+            # must leave them alone
+            obj = chan[name]()
+            for j, r in enumerate(list(rows)[:3]):
+                for key, dflt in list(obj.channel_params.items())[:2] + list(obj.channel_states.items())[:1]:
+                    m.select(nodes=[int(r)]).set(key, float(dflt) * (1.0 + 0.05 * (j + 1)) + 0.001 * (j + 1))
     for name, rows in spec["groups"].items():
         m.select(nodes=[int(r) for r in rows]).add_to_group(name)
     return m
